@@ -6,6 +6,7 @@ import (
 	"io"
 
 	"go.dedis.ch/kyber/v4"
+	"go.dedis.ch/kyber/v4/compatible/compatiblemod"
 )
 
 // C03 (E1 part) — the generic stream wrappers carry exactly the bytes of MarshalBinary / hand exactly
@@ -116,4 +117,77 @@ func HarnessPointUnmarshalFrom(p0, p1 int) {
 		vassert(p.got[i] == r.data[i], "PointUnmarshalFrom: the bytes handed to UnmarshalBinary are the bytes of the stream")
 	}
 	vassert(r.pos == 5, "PointUnmarshalFrom: no byte beyond the encoding is consumed")
+}
+
+// ---- the scalar wrappers, same contract
+type fakeScalar struct {
+	enc   [5]byte
+	got   [5]byte
+	gotN  int
+	calls int
+}
+
+func (p *fakeScalar) MarshalBinary() ([]byte, error) { return append([]byte{}, p.enc[:]...), nil }
+func (p *fakeScalar) UnmarshalBinary(b []byte) error {
+	p.calls++
+	p.gotN = len(b)
+	copy(p.got[:], b)
+	return nil
+}
+func (p *fakeScalar) MarshalSize() int                        { return 5 }
+func (p *fakeScalar) String() string                          { return "" }
+func (p *fakeScalar) MarshalTo(w io.Writer) (int, error)      { return 0, nil }
+func (p *fakeScalar) UnmarshalFrom(r io.Reader) (int, error)  { return 0, nil }
+func (p *fakeScalar) Equal(kyber.Scalar) bool                 { return false }
+func (p *fakeScalar) Set(kyber.Scalar) kyber.Scalar           { return p }
+func (p *fakeScalar) Clone() kyber.Scalar                     { return p }
+func (p *fakeScalar) SetInt64(int64) kyber.Scalar             { return p }
+func (p *fakeScalar) Zero() kyber.Scalar                      { return p }
+func (p *fakeScalar) Add(a, b kyber.Scalar) kyber.Scalar      { return p }
+func (p *fakeScalar) Sub(a, b kyber.Scalar) kyber.Scalar      { return p }
+func (p *fakeScalar) Neg(a kyber.Scalar) kyber.Scalar         { return p }
+func (p *fakeScalar) One() kyber.Scalar                       { return p }
+func (p *fakeScalar) Mul(a, b kyber.Scalar) kyber.Scalar      { return p }
+func (p *fakeScalar) Div(a, b kyber.Scalar) kyber.Scalar      { return p }
+func (p *fakeScalar) Inv(a kyber.Scalar) kyber.Scalar         { return p }
+func (p *fakeScalar) Pick(cipher.Stream) kyber.Scalar         { return p }
+func (p *fakeScalar) SetBytes([]byte) kyber.Scalar            { return p }
+func (p *fakeScalar) ByteOrder() kyber.ByteOrder              { return kyber.LittleEndian }
+func (p *fakeScalar) GroupOrder() *compatiblemod.Mod          { return nil }
+
+func HarnessScalarMarshalTo() {
+	p := &fakeScalar{}
+	for i := range p.enc {
+		p.enc[i] = nondetU8()
+	}
+	w := &recWriter{}
+	n, err := ScalarMarshalTo(p, w)
+	vreach("returned")
+	vassert(err == nil && n == 5, "ScalarMarshalTo: writes MarshalSize bytes")
+	vassert(w.n == 5, "ScalarMarshalTo: exactly the encoding is written")
+	for i := 0; i < 5; i++ {
+		vassert(w.buf[i] == p.enc[i], "ScalarMarshalTo: the bytes on the stream are the bytes of MarshalBinary")
+	}
+}
+
+// p0: bytes available on the stream, p1: maximal chunk per Read
+func HarnessScalarUnmarshalFrom(p0, p1 int) {
+	r := &chunkReader{avail: p0, chunk: p1}
+	for i := range r.data {
+		r.data[i] = nondetU8()
+	}
+	p := &fakeScalar{}
+	n, err := ScalarUnmarshalFrom(p, r)
+	vreach("returned")
+	if p0 < 5 {
+		vassert(err != nil, "ScalarUnmarshalFrom: a short stream is an error")
+		vassert(p.calls == 0, "ScalarUnmarshalFrom: UnmarshalBinary is not called on a short read")
+		return
+	}
+	vassert(err == nil && n == 5, "ScalarUnmarshalFrom: reads MarshalSize bytes")
+	vassert(p.calls == 1 && p.gotN == 5, "ScalarUnmarshalFrom: UnmarshalBinary gets exactly MarshalSize bytes")
+	for i := 0; i < 5; i++ {
+		vassert(p.got[i] == r.data[i], "ScalarUnmarshalFrom: the bytes handed to UnmarshalBinary are the bytes of the stream")
+	}
+	vassert(r.pos == 5, "ScalarUnmarshalFrom: no byte beyond the encoding is consumed")
 }
